@@ -296,8 +296,9 @@ class Worker:
                 self.read_receipt_mutex.acquire()
                 tasks = cast(list[RuntimeTask], payload)
                 self.most_recent_read_submit = tasks[0].unique_id
-                self._add_task(tasks.pop())  # Submit one task
+                first_task = tasks.pop()
                 self._delayed_tasks.extend(tasks)  # Delay rest
+                self._add_task(first_task)  # Submit one task
                 self.read_receipt_mutex.release()
 
             elif msg == RuntimeMessage.RESULT:
